@@ -30,6 +30,10 @@ _depth = contextvars.ContextVar("vdepth", default=0)
 import enum
 
 
+class _StrEnum(str, enum.Enum):
+    pass
+
+
 class VEnum(enum.Enum):
     A = "a"
     B = "b"
@@ -336,6 +340,10 @@ def make_callback(rt, c, cb, slot_getter=None):
         rt.occ[c] = rt.occ.get(c, 0) + 1
         return n, rt.last_slot
 
+    def own_default(vtag):
+        if vtag != c:
+            rt.notes.append({"kind": "foreign_default", "c": c, "got": vtag})
+
     def plan_of():
         if rt.script_occ is None:
             return None
@@ -416,10 +424,14 @@ def make_callback(rt, c, cb, slot_getter=None):
             def function(*, event=None, source=None, target=None, state=None, machine=None):
                 return dbody(machine, event, source, target, state)
         else:
-            def method(self, *, event=None, source=None, target=None, state=None, machine=None):
+            # (vtag: a parameter of the callback's own, with a default that differs from function to function although all
+            # of them come from this one `def`: what a parameter defaults to belongs to the function object)
+            def method(self, *, event=None, source=None, target=None, state=None, machine=None, vtag=c):
+                own_default(vtag)
                 return body(machine, event, source, target, state, self)
 
-            def function(*, event=None, source=None, target=None, state=None, machine=None):
+            def function(*, event=None, source=None, target=None, state=None, machine=None, vtag=c):
+                own_default(vtag)
                 return body(machine, event, source, target, state)
 
     else:
@@ -462,10 +474,12 @@ def make_callback(rt, c, cb, slot_getter=None):
                 _depth.reset(tok)
             return finish(n, machine, slot)
 
-        async def method(self, *, event=None, source=None, target=None, state=None, machine=None):
+        async def method(self, *, event=None, source=None, target=None, state=None, machine=None, vtag=c):
+            own_default(vtag)
             return await abody(machine, event, source, target, state, self)
 
-        async def function(*, event=None, source=None, target=None, state=None, machine=None):
+        async def function(*, event=None, source=None, target=None, state=None, machine=None, vtag=c):
+            own_default(vtag)
             return await abody(machine, event, source, target, state)
 
     name = cb["name"]
@@ -625,6 +639,17 @@ def declared_events(d):
     else:
         out = list(d["evorder"])
     return out
+
+
+class ForwardingProxy:
+    def __init__(self, target):
+        self.__dict__["_target"] = target
+
+    def __getattr__(self, name):
+        return getattr(self.__dict__["_target"], name)
+
+    def __dir__(self):
+        return dir(self.__dict__["_target"])
 
 
 class Bag:
@@ -850,6 +875,12 @@ class Built:
         setattr(vmod, pname, cls)
         obj = cls()
         obj.__dict__["_vslot"] = slot
+        if kind == "proxy" and prov != "model":
+            # a forwarding object (lazy / decorating proxy, fan-out listener): nothing of its own, everything through
+            # __getattr__, and a __dir__ that says what it forwards
+            obj = ForwardingProxy(obj)
+            obj.__dict__["_vslot"] = slot
+            return obj
         if prov == "model":
             if kind == "classattr":
                 if stored is not None:
@@ -926,6 +957,8 @@ class Runner:
         d = self.scn["classes"][k - 1]
         if value is None:
             return ""
+        if isinstance(value, enum.Enum) and type(value).__name__.startswith("VAlias"):
+            value = value.value        # a member of a mixed-in enum IS its raw value (equal, same hash)
         for s in d["states"]:
             v = decode_value(s["value"]) if s.get("value", None) is not None else s["id"]
             if type(v) is type(value) and v == value:
@@ -1007,6 +1040,7 @@ class Runner:
         i, k = step["i"], step["cls"]
         b = self.built[k - 1]
         opt = step["opt"]
+        alias = None
         gv = self.set_gv(step)
         provs = step["provs"]
         self.rt.cur_slot = i
@@ -1021,7 +1055,13 @@ class Runner:
             model = self.models[i]
             stored = self.token_of(self.cls_of[i], getattr(model, state_field, None))
         elif "model" in provs or step.get("model_kind", "default") != "default" or stored != "":
-            model = b.make_provider("model", state_field, self.value_of(k, stored),
+            sval = self.value_of(k, stored)
+            if step.get("stored_alias") and stored != "" and type(sval) in (int, str):
+                # what the model stores is a member of a mixed-in enum (IntEnum, class X(str, Enum), Django choices) that
+                # equals the state's raw value: a valid stored state, to be resumed UNTOUCHED
+                sval = (enum.IntEnum if type(sval) is int else _StrEnum)("VAlias", {"member": sval}).member
+                alias = sval
+            model = b.make_provider("model", state_field, sval,
                                     kind=step.get("model_kind", "attr"), slot=i)
         else:
             model = None
@@ -1069,6 +1109,11 @@ class Runner:
             return
         self.rt.mode = "live"
         self.constructing = 0
+        if step.get("bind_model"):
+            sm.bind_events_to(sm.model)      # model.<event>() is one more way of sending the event (MachineMixin does this)
+        if alias is not None and getattr(sm.model, state_field, None) is not alias:
+            self.rt.notes.append({"kind": "stored_value_replaced", "i": i,
+                                  "now": repr(getattr(sm.model, state_field, None))})
         self.sm[i] = sm
         self.rt.register(sm, i)
         self.models[i] = sm.model
@@ -1168,6 +1213,12 @@ class Runner:
             elif api == "write_setter":
                 sm.current_state_value = self.value_of(k, step["v"])
                 r = None
+            elif api == "write_state":
+                # sm.current_state = <State object>: one of the machine's own states, or - for an unmapped token - a State
+                # object that does not belong to the machine (another class's, a free-standing one) carrying that value
+                own = [s_ for s_ in sm.states if s_.id == step["v"]]
+                sm.current_state = own[0] if own else State(value=self.value_of(k, step["v"]))
+                r = None
             elif api == "write_model":
                 setattr(sm.model, sm.state_field, self.value_of(k, step["v"]))
                 r = None
@@ -1230,7 +1281,7 @@ class Runner:
         i = step["i"]
         sm = self.sm[i]
         api = step["api"]
-        if api not in ("send", "send_from", "event", "events_item", "allowed_item", "bound", "activate"):
+        if api not in ("send", "send_from", "event", "events_item", "allowed_item", "bound", "mixin_bound", "activate"):
             return self.do_call(step)
         self.rt.cur_slot = i
         self.rt.chain = [i]
